@@ -8,6 +8,7 @@ import BSEProofs.Lemmas.NwchemRT
 import BSEProofs.Lemmas.NwchemEcp
 import BSEModel.G94Inst
 import BSEProofs.Lemmas.G94RT
+import BSEProofs.Lemmas.G94EcpRT
 /-! # C03 — reading back what the library wrote never silently changes the basis
 
 What is proved: (1) the number tables survive print → read token for token (only the exponent marker
@@ -351,6 +352,64 @@ theorem g94_electron_roundtrip {ν : Type} (isNum : ν → Bool) (z : Nat) (shel
   obtain ⟨h1, h1', h2, h3, h4, h5, h6, h7, h8⟩ := hsh sh hs
   have ham := g94_am_roundtrip isNum sh.am h6 h7
   exact ⟨⟨h1, h2, h3, ⟨h4, h5⟩, ham, fun _ => h8⟩, h8, g94_count_roundtrip _ (List.mem_range.2 h1'), ham.2⟩
+
+/-! ## (7) Gaussian94: one element's ECP block — read back iff the momenta are contiguous -/
+
+def allTokS : String → Bool := fun _ => true
+
+/-- copper, potentials l = 0, 1, 2 (contiguous) -/
+def cuFull : List (BSE.Nwchem.EPot String) :=
+  [{ am := 1, terms := [("2", "1.1", "2.0")] }, { am := 0, terms := [("2", "1.5", "3.0"), ("1", "0.5", "1.0")] }, { am := 2, terms := [("1", "0.7", "-1.0")] }]
+
+/-- copper, potentials l = 0 and l = 2 only -/
+def cuGap : List (BSE.Nwchem.EPot String) :=
+  [{ am := 0, terms := [("2", "1.5", "3.0")] }, { am := 2, terms := [("1", "0.7", "-1.0")] }]
+
+/-- **Gaussian94 ECP block: read(write(pots))**, over the library's tables: with `L` the highest momentum, the block is
+read back iff there are exactly `L + 1` potentials, and then the momenta are assigned by position -/
+theorem g94_ecp_readback (isNum isInt : String → Bool) (z : Nat) (nelec : String) (pots : List (BSE.Nwchem.EPot String))
+    (ok : BlockOK (realETables isNum isInt) z nelec pots) (hne : BSE.Nwchem.writeOrder pots ≠ []) :
+    parseEcpBlock (realETables isNum isInt) (ecpBlock (realETables isNum isInt) z nelec pots)
+      = if (BSE.Nwchem.writeOrder pots).length = (pots.map (·.am)).foldl max 0 + 1
+        then .ok (z, nelec, numbered ((pots.map (·.am)).foldl max 0) (BSE.Nwchem.writeOrder pots))
+        else .error .runtime :=
+  parseEcpBlock_write (realETables isNum isInt) z nelec pots ok hne
+
+/-- the premises `BlockOK` hold over the library's tables for every element 1..118, highest momentum and term counts below
+400, a numeric electron count and typed, non-empty term lists -/
+theorem g94_ecp_premises (isNum isInt : String → Bool) (z : Nat) (nelec : String) (pots : List (BSE.Nwchem.EPot String))
+    (hz : z ∈ List.range' 1 118) (hL : (pots.map (·.am)).foldl max 0 < 400)
+    (hn : (natOfStr nelec.toList).isSome = true)
+    (hp : ∀ p ∈ BSE.Nwchem.writeOrder pots, p.terms ≠ [] ∧ p.terms.length < 400
+      ∧ ∀ t ∈ p.terms, isInt t.1 = true ∧ isNum t.2.1 = true ∧ isNum t.2.2 = true) :
+    BlockOK (realETables isNum isInt) z nelec pots := by
+  have hsym : ∀ z ∈ List.range' 1 118, zFromSym (String.ofList (upperStr ((symFromZ z).getD []))).toList = some z := by
+    decide +kernel
+  have hnat : ∀ n ∈ List.range 400, natOfStr (toString n).toList = some n ∧ intOfStr (toString n).toList = some (n : Int) := by
+    decide +kernel
+  refine ⟨hsym z hz, (hnat _ (List.mem_range.2 hL)).1, hn, ?_⟩
+  intro p hpw
+  obtain ⟨h1, h2, h3⟩ := hp p hpw
+  exact ⟨h1, h3, (hnat _ (List.mem_range.2 h2)).2⟩
+
+/-- … and then they are the potentials' own momenta exactly when these are `L, 0, 1, …, L-1` in write order -/
+theorem g94_ecp_faithful (L : Nat) (top : BSE.Nwchem.EPot String) (rest : List (BSE.Nwchem.EPot String)) (htop : top.am = L)
+    (hrest : rest.map (·.am) = List.range L) :
+    numbered L (top :: rest) = (top :: rest).map BSE.Nwchem.readPot :=
+  numbered_faithful L top rest htop hrest
+
+/-- non-vacuity: the contiguous copper ECP is read back with its own momenta -/
+example : (parseEcpBlock (realETables allTokS allTokS) (ecpBlock (realETables allTokS allTokS) 29 "10" cuFull)).toOption
+    = some (29, "10", [{ am := some [2], rexp := ["1"], gexp := ["0.7"], coef := ["-1.0"] },
+                        { am := some [0], rexp := ["2", "1"], gexp := ["1.5", "0.5"], coef := ["3.0", "1.0"] },
+                        { am := some [1], rexp := ["2"], gexp := ["1.1"], coef := ["2.0"] }]) := by
+  decide +kernel
+
+/-- **limit of the format, proved on the model and replayed on the library (finding F14-g94):** the Gaussian94 reader
+refuses the block the writer produced for potentials l = 0, 2 -/
+theorem g94_ecp_gap_limit :
+    (parseEcpBlock (realETables allTokS allTokS) (ecpBlock (realETables allTokS allTokS) 29 "10" cuGap)).toOption = none := by
+  decide +kernel
 
 example : tokens (replaceD (convExp true (rowLine [(7, "1.5e+01".toList), (20, "-2.0E-01".toList)] [])))
     = ["1.5E+01".toList, "-2.0E-01".toList] := by decide +kernel
